@@ -69,6 +69,9 @@ def rule_cropstrict(ctx, rule="C13.CROPSTRICT"):
     lows = [x for x in subs if not tm.is_const(x.index.a[0], None) and lo[0].term in list(tm.walk(x.index.a[0]))]
     ups = [x for x in subs if not tm.is_const(x.index.a[1], None) and hi[0].term in list(tm.walk(x.index.a[1]))]
     yield ob(rule, f, "util.adjust_intervals:slices", bool(lows) and bool(ups), "kept rows are intervals[first_idx:] and intervals[:last_idx]")
+    # ... whether or not labels were passed: the interval crop may not sit under a test on `labels`
+    dep = [x for x in lows + ups if "labels" not in tm.params_of(x.base) and any("labels" in tm.params_of(c) for c, _ in symeval.pc_conds(x.pc))]
+    yield ob(rule, f, "util.adjust_intervals:crop-without-labels", not dep, "the interval rows are cropped on every path (not only when labels are given)" if not dep else "the interval crop at line %d runs only under a test on `labels`: with labels=None the rows beyond the bound are kept" % dep[0].lineno, node=(dep or lows + ups or [lo[0]])[0].node)
     # clipping and padding
     clipmax = [c2 for c2 in s.calls() if c2.callee == "np.maximum" and any(a.op == "param" and a.a[0] == "t_min" for a in c2.args)]
     clipmin = [c2 for c2 in s.calls() if c2.callee == "np.minimum" and any(a.op == "param" and a.a[0] == "t_max" for a in c2.args)]
